@@ -144,3 +144,141 @@ theorem dispatch_appends_one_reward (w : FWorld) (hs : SubsOK w) (rew : Nat) (o 
     exact ⟨o', r, h1, h2, by rw [h2]; simp⟩
 
 end JS
+
+namespace JS
+
+/-- `w'` keeps `w`'s subscribers as a prefix of its own and stays well formed -/
+structure Good (w w' : FWorld) : Prop where
+  ok : SubsOK w → SubsOK w'
+  pre : ∃ t, w'.subs = w.subs ++ t
+  st : w'.cfg = w.cfg ∧ w'.s = w.s
+
+theorem Good.refl (w : FWorld) : Good w w := ⟨id, ⟨[], by simp⟩, rfl, rfl⟩
+theorem Good.trans {a b c : FWorld} (h1 : Good a b) (h2 : Good b c) : Good a c := by
+  refine ⟨fun h => h2.ok (h1.ok h), ?_, h2.st.1.trans h1.st.1, h2.st.2.trans h1.st.2⟩
+  obtain ⟨t1, e1⟩ := h1.pre
+  obtain ⟨t2, e2⟩ := h2.pre
+  exact ⟨t1 ++ t2, by rw [e2, e1, List.append_assoc]⟩
+
+theorem good_push (w : FWorld) (o : FObs) : Good w (w.push o).1 :=
+  ⟨fun h => subsOK_push h o, ⟨[w.heap.length], rfl⟩, rfl, rfl⟩
+theorem good_setObs (w : FWorld) (id : Nat) (o : FObs) : Good w (w.setObs id o) :=
+  ⟨fun h => subsOK_setObs h id o, ⟨[], by simp [FWorld.setObs]⟩, rfl, rfl⟩
+
+theorem good_getUnscheduled (w : FWorld) : Good w w.getUnscheduled.1 := by
+  unfold FWorld.getUnscheduled
+  cases w.findObs .unscheduled [] with
+  | some id => exact Good.refl w
+  | none => exact good_push w _
+
+theorem good_newRemaining (w : FWorld) (fts : List FT) : Good w (w.newRemaining fts).1 := by
+  unfold FWorld.newRemaining
+  simp only
+  exact (good_push w _).trans ((good_getUnscheduled _).trans (good_setObs _ _ _))
+
+theorem good_getRemaining (w : FWorld) (need : List FT) : Good w (w.getRemaining need).1 := by
+  unfold FWorld.getRemaining
+  cases w.findObs .remainingOps need with
+  | some id => exact Good.refl w
+  | none => exact good_newRemaining w need
+
+theorem good_isCompletedInit (w : FWorld) (id : Nat) : Good w (w.isCompletedInit id) := by
+  unfold FWorld.isCompletedInit
+  simp only
+  exact (good_setObs w _ _).trans ((good_getRemaining _ _).trans (good_setObs _ _ _))
+
+theorem good_resetRemaining (w : FWorld) (id : Nat) : Good w (w.resetRemaining id) := by
+  unfold FWorld.resetRemaining
+  simp only
+  exact (good_getUnscheduled w).trans ((good_setObs _ _ _).trans (good_setObs _ _ _))
+
+theorem good_callUpdate (w : FWorld) (x : SOp) (id : Nat) : Good w (w.callUpdate x id) := by
+  obtain ⟨h1, h2, h3, h4⟩ := callUpdate_frame w x id
+  exact ⟨fun h => ⟨h1 ▸ h.nodup, fun i hi => by rw [h4]; exact h.valid i (h1 ▸ hi)⟩, ⟨[], by simp [h1]⟩, h3, h2⟩
+
+theorem good_callReset (w : FWorld) (id : Nat) : Good w (w.callReset id) := by
+  unfold FWorld.callReset
+  cases w.heap[id]? with
+  | none => exact Good.refl w
+  | some o =>
+    simp only
+    split
+    all_goals first
+      | exact good_setObs _ _ _
+      | exact good_resetRemaining _ _
+      | exact (good_getRemaining _ _).trans ((good_resetRemaining _ _).trans (good_isCompletedInit _ _))
+
+theorem good_foldl (f : FWorld → Nat → FWorld) (hf : ∀ w id, Good w (f w id)) : ∀ (l : List Nat) (w : FWorld), Good w (l.foldl f w)
+  | [], w => Good.refl w
+  | a :: t, w => by simp only [List.foldl_cons]; exact (hf w a).trans (good_foldl f hf t _)
+
+/-- the state-changing operations: subscribers stay a well-formed extension; the dispatcher state stays reachable -/
+theorem dispatch_keeps (w : FWorld) (j p : Nat) (m : Option Int) :
+    (SubsOK w → SubsOK (w.dispatch j p m).1) ∧ (∃ t, (w.dispatch j p m).1.subs = w.subs ++ t) ∧
+    (w.dispatch j p m).1.cfg = w.cfg ∧
+    (Valid w.cfg.I → CInv w.cfg.I w.s → CInv w.cfg.I (w.dispatch j p m).1.s) := by
+  unfold FWorld.dispatch
+  cases hd : dispatchReq w.cfg.I w.s j p m with
+  | error e => exact ⟨id, ⟨[], by simp⟩, rfl, fun _ h => h⟩
+  | ok s' =>
+    simp only
+    have hc' : Valid w.cfg.I → CInv w.cfg.I w.s → CInv w.cfg.I s' := by
+      intro hv hc
+      obtain ⟨mm, op, hop, _, hdd⟩ := dispatchReq_ok hd
+      obtain ⟨op', hsp⟩ := dispatch_ok hdd
+      have := hsp.hop; rw [hop] at this; cases this
+      exact cinv_dispatch (hv j p op hop).2.2 hc hsp
+    cases (s'.sched.flatten.find? fun x => x.job == j && x.pos == p) with
+    | none => exact ⟨fun h => ⟨h.nodup, h.valid⟩, ⟨[], by simp⟩, rfl, hc'⟩
+    | some x =>
+      simp only
+      have g := good_foldl (fun w id => w.callUpdate x id) (fun w id => good_callUpdate w x id) w.subs { w with s := s' }
+      refine ⟨fun h => g.ok ⟨h.nodup, h.valid⟩, g.pre, g.st.1, fun hv hc => ?_⟩
+      rw [g.st.2]; exact hc' hv hc
+
+theorem reset_keeps (w : FWorld) :
+    (SubsOK w → SubsOK w.reset) ∧ (∃ t, w.reset.subs = w.subs ++ t) ∧ w.reset.cfg = w.cfg ∧
+    CInv w.cfg.I w.reset.s := by
+  unfold FWorld.reset
+  have g := good_foldl (fun w id => w.callReset id) (fun w id => good_callReset w id) w.subs { w with s := JS.init w.cfg.I }
+  refine ⟨fun h => g.ok ⟨h.nodup, h.valid⟩, g.pre, g.st.1, ?_⟩
+  rw [g.st.2]; exact cinv_init w.cfg.I
+
+end JS
+
+namespace JS
+
+theorem good_construct (w : FWorld) (kind : FKind) (fts : Option (List FT)) : Good w (w.construct kind fts).1 := by
+  cases kind <;> simp only [FWorld.construct]
+  all_goals
+    repeat' split
+    all_goals first
+      | exact Good.refl w
+      | exact good_push w _
+      | exact (good_push w _).trans (good_setObs _ _ _)
+      | exact (good_push w _).trans ((good_getUnscheduled _).trans (good_setObs _ _ _))
+      | exact (good_push w _).trans (good_isCompletedInit _ _)
+
+theorem good_constructComposite (w : FWorld) (parts : Option (List Nat)) : Good w (w.constructComposite parts).1 := by
+  unfold FWorld.constructComposite
+  simp only
+  exact (good_push w _).trans (good_setObs _ _ _)
+
+theorem good_getIsCompleted (w : FWorld) (need : List FT) : Good w (w.getIsCompleted need).1 := by
+  unfold FWorld.getIsCompleted
+  cases w.findObs .isCompleted need with
+  | some id => exact Good.refl w
+  | none => exact (good_push w _).trans (good_isCompletedInit _ _)
+
+theorem good_constructResidual (w : FWorld) (g : Graph) (rm rj : Bool) : Good w (w.constructResidual g rm rj).1 := by
+  unfold FWorld.constructResidual
+  by_cases h1 : (w.subs.any fun id => (w.heap[id]?.map (·.kind)) == some FKind.residual) = true
+  · rw [if_pos h1]; exact Good.refl w
+  · rw [if_neg h1]
+    simp only
+    generalize ((if rm then [FT.machines] else []) ++ (if rj then [FT.jobs] else [])) = need
+    by_cases h2 : need.isEmpty = true
+    · rw [if_pos h2]; exact good_push w _
+    · rw [if_neg h2]; exact (good_getIsCompleted w need).trans (good_push _ _)
+
+end JS
